@@ -571,8 +571,18 @@ impl Check for C04 {
                         (b, Entry::Vcp)
                     }
                     _ => {
-                        let (b, _) = icd::clutter_filter_map(tape, &mut r, 3, true);
-                        (b, Entry::Clutter)
+                        if tape.draw(16) == 15 {
+                            // 255 complete segments present, declared count beyond what fits a byte
+                            let (mut b, _) = icd::clutter_filter_map_with(&mut r, 255, 4, None);
+                            let declared = [256u16, 257, 300, 511, 65535][tape.draw(5) as usize];
+                            b[4..6].copy_from_slice(&declared.to_be_bytes());
+                            ctx.count("extreme_applied");
+                            ctx.count("clutter_255_segments_declared_more");
+                            (b, Entry::Clutter)
+                        } else {
+                            let (b, _) = icd::clutter_filter_map(tape, &mut r, 3, true);
+                            (b, Entry::Clutter)
+                        }
                     }
                 };
                 let k = tape.draw(4);
